@@ -1,5 +1,6 @@
 (* C14/Driver.v — entry point of the correspondence run (extracted to OCaml). *)
-From RM Require Import C14.Model Gen.C14Reason.
+From RM Require Import C02.Model.
+From RM Require Import C14.Model Gen.C14Reason C14.Bytes.
 Open Scope Z_scope.
 
 (* a thread context of kind 1 is readable when the architecture has a context reader *)
@@ -52,3 +53,8 @@ Definition run_case (p : profile) (d : dump) : c14_out :=
               | None => None end;
      o_pid := process_id d; o_ctime := process_create_time d; o_time := d_time d;
      o_modules := read_modules (d_modules d); o_unloaded := read_unloaded (d_unloaded d) |}.
+
+(* the same observables computed from the BYTES of a dump: C02's reader model (decode_dump), MinidumpInfo::new (dump_of_view), then
+   the process state; None = Minidump::read or process_minidump fails (no header / thread list / system info) *)
+Definition run_bytes (p : profile) (bs : list Z) : option c14_out :=
+  match dump_of_bytes ctx_of_bytes bs with Some d => Some (run_case p d) | None => None end.
